@@ -190,6 +190,10 @@ func (e *env) unlockKey(k string) types.UnlockKey {
 		return types.UnlockKey{Algorithm: types.SpecifierEd25519, Key: append([]byte(nil), e.pk[0][:]...)}
 	case "e2":
 		return types.UnlockKey{Algorithm: types.SpecifierEd25519, Key: append([]byte(nil), e.pk[1][:]...)}
+	case "e1s": // an ed25519 key of 0 bytes (legal to build, encode and hash; nobody can sign for it)
+		return types.UnlockKey{Algorithm: types.SpecifierEd25519, Key: []byte{}}
+	case "e1p": // an ed25519 key that is only the first 16 bytes of k1
+		return types.UnlockKey{Algorithm: types.SpecifierEd25519, Key: append([]byte(nil), e.pk[0][:16]...)}
 	case "ent":
 		return types.UnlockKey{Algorithm: types.SpecifierEntropy, Key: append([]byte(nil), e.pk[0][:]...)}
 	case "unk":
@@ -370,7 +374,7 @@ func (st *stratum) roots(f func(*node)) {
 // ucRoots enumerates every unlock-conditions root: key lists of length 0..nMax
 // over {e1,e2,ent,unk}, m in 0..n+1, timelock in {0,h}.
 func ucRoots(nMax int, f func(*node)) {
-	kinds := []string{"e1", "e2", "ent", "unk"}
+	kinds := []string{"e1", "e2", "ent", "unk", "e1s", "e1p"}
 	var rec func(keys []string)
 	rec = func(keys []string) {
 		for m := 0; m <= len(keys)+1; m++ {
